@@ -1,4 +1,5 @@
 """Per-property check configuration: which units decide it, what is assumed."""
+from . import kani as _kani
 
 COMMON_ASSUME = [
     "Windows and cfg(test) variants of the code are not verified (R3 resolves cfg for linux, non-test, default features)",
@@ -41,4 +42,21 @@ PROPS = {
     "C20": dict(units=["origins"], level="proof", assumptions=ORIGINS_ASSUME,
                 claim="ProjectType::{is_vcs,is_soft}, DirList::*, check_list, origins (ancestor walk, loop invariant, termination) and types proved by Verus against specs transcribed from the docs, for all paths and directory contents",
                 trusted="stand-ins in prelude/origins_env.rs (abstract paths, directory listing map, HashSet/array iterator idioms); string literals interned (R9)"),
+    "C19": dict(units=[], engines=[_kani.make_engine("signals"), _kani.make_engine("events")], level="proof",
+                back_ends=["kani 0.68 / cbmc 6.11 (loop-free harnesses over full-domain symbolic inputs: complete, not bounded)"],
+                assumptions=["linux/unix variants only", "wait-status encoding of the host libc (WIFEXITED/WEXITSTATUS/WIFSIGNALED/WTERMSIG as implemented by std on linux) restated in the harness",
+                             "name parsing (from_str/Display) is decided in the Verus unit `names`; the --map-signal clap glue is not decided",
+                             "stop/continue wait statuses are outside the statement: std never reports them; observed: they map to Success, and into_exitstatus(Continued) does not read back"],
+                claim="Signal::{from(i32),to_nix,from_nix} and ProcessEnd::from(ExitStatus)/into_exitstatus proved by Kani for all 2^32 raw values and all enum values (function contracts on thin wrappers, proof_for_contract)",
+                trusted="CBMC's bit-precise model of the compiled MIR incl. std::process::ExitStatus and nix::sys::signal::Signal::try_from (real code, no stubs)",
+                technique="Kani function contracts (proof_for_contract) on the real conversion functions, full-domain symbolic inputs"),
+    "C16": dict(units=[], engines=[_kani.make_engine("signals"), _kani.make_engine("events")], level="proof",
+                back_ends=["kani 0.68 / cbmc 6.11 (loop-free harnesses over full-domain symbolic inputs: complete, not bounded)"],
+                assumptions=["the serde-derive layer and serde_json (field names, kebab-case renames, skip_serializing_if, untagged SerdeSignal) are NOT decided: pinned only by the existing snapshot tests",
+                             "paths: a fixed empty PathBuf stands for every path (its bytes are moved, never inspected, by the conversions)",
+                             "filesystem event kind names (format!/55-row string match) are decided in the Verus unit `names`",
+                             "Event metadata HashMap<->BTreeMap conversion is std's collect(): not under contract"],
+                claim="Tag<->SerdeTag conversions proved by Kani for every non-fs tag kind over full value ranges; an arbitrary tag object (all optional fields symbolic) never panics and yields its own kind or the explicit Unknown tag",
+                trusted="CBMC's bit-precise model of the compiled MIR (real code incl. the unsafe new_unchecked calls, no stubs)",
+                technique="Kani loop-free proof harnesses over full-domain symbolic inputs on the real conversion functions (plain harnesses: contract instrumentation is 20x slower on these heap-carrying types)"),
 }
